@@ -18,6 +18,11 @@ import CtyModel.Lemmas.d06Cons
 import CtyModel.Lemmas.d06WF
 import CtyModel.Props.C17Json
 import CtyModel.Lemmas.d06Convert
+import CtyModel.Lemmas.d06Access
+import CtyModel.Lemmas.d06Gocty
+import CtyModel.Lemmas.d06WalkSets
+import CtyModel.Lemmas.d06Stdlib
+import Lean
 namespace CtyModel
 namespace C06
 open Value
@@ -431,6 +436,156 @@ example : ∃ r, Convert.convert D06Conv.envDedup 8 D06Conv.exVal D06Conv.exWant
   ⟨_, D06Conv.exConvert,
     wf_convert D06Conv.envDedup D06Conv.unifyLaws_envDedup (D06Conv.setWFLaws_envDedup _) D06Conv.textLaws_true 8
       D06Conv.exVal _ D06Conv.exWant (by decide) (by decide) (by decide) (by decide) D06Conv.exConvert⟩
+
+/-! ## d06 — the remaining producers: gocty, Transform and the mark-path functions, stdlib Impls -/
+
+/-- `gocty.ToCtyValue(g, ty)` (the REAL model `Gocty.toCty` of C18): whenever it returns, the value is well-formed —
+given NFC results of `NormalizeString`, a target type acceptable as the type of a value, and a Go value whose
+embedded `cty.Value`s are well-formed and whose Go maps have distinct keys (`D06Prod.goOk`). -/
+theorem wf_toCtyValue {norm : String → String} (hn : ∀ s, nfc (norm s) = true) (g : GoVal) (ty : Ty) (v : Value)
+    (h : Gocty.toCty norm g ty = .ok v) (hg : D06Prod.goOk nfc g = true) (hty : ty.ok nfc = true) :
+    v.WF nfc = true := D06Thm.d06_toCtyValue_wf hn g ty v h hg hty
+
+/-- … and for a Go value of a Go type without `cty.Value` fields no hypothesis on the value is needed -/
+theorem wf_toCtyValue_typed {norm : String → String} (hn : ∀ s, nfc (norm s) = true) (g : GoVal) (T : GoTy)
+    (ty : Ty) (v : Value) (hT : Gocty.hasTy g T = true) (hc : Gocty.hasCval T = false)
+    (h : Gocty.toCty norm g ty = .ok v) (hty : ty.ok nfc = true) : v.WF nfc = true :=
+  D06Thm.d06_toCtyValue_wf_typed hn g T ty v hT hc h hty
+
+example : D06Prod.goOk D06Thm.d06_nfc D06Thm.d06_g = true ∧ D06Thm.d06_ty.ok D06Thm.d06_nfc = true ∧
+    (Gocty.toCty D06Thm.d06_norm D06Thm.d06_g D06Thm.d06_ty).isOk = true := by decide
+
+/-- `cty.Transform` / `TransformWithTransformer` with ANY callback that returns well-formed values (it may change
+types): the rebuilt value is well-formed.  Set-free values need nothing of the set oracle … -/
+theorem wf_transform_setFree {X : SetOracle} (hX : Walk.IterPerm X) {σ : Walk.Sched} (hσ : Walk.SchedOk σ)
+    (cb : Walk.TCb) (hcb : ∀ log p v w, v.WF nfc = true → cb log p v = .ok w → w.WF nfc = true) (v r : Value)
+    (hv : v.WF nfc = true) (hs : v.ty.d06_setFree = true) (h : (Walk.transform X σ cb v).2 = .ok r) :
+    r.WF nfc = true := D06Thm.d06_transform_wf_setFree hX hσ cb hcb v r hv hs h
+
+/-- … values with sets need the set rules to be lawful on well-formed mark-free members (`D06Prod.SetLaws`:
+`Equivalent` symmetric — a theorem for plain element types, `D06Prod.setLaws_plain_of_hash` — and hash-coherent) -/
+theorem wf_transform {X : SetOracle} (hX : Walk.IterPerm X) (hlaw : D06Prod.SetLaws X nfc) {σ : Walk.Sched}
+    (hσ : Walk.SchedOk σ) (cb : Walk.TCb)
+    (hcb : ∀ log p v w, v.WF nfc = true → cb log p v = .ok w → w.WF nfc = true) (v r : Value)
+    (hv : v.WF nfc = true) (h : (Walk.transform X σ cb v).2 = .ok r) : r.WF nfc = true :=
+  D06Thm.d06_transform_wf hX hlaw hσ cb hcb v r hv h
+
+/-- Full statement without the set laws: FALSE of the code, for the root cause of `setValWF_false` (the set hash of
+numbers is not coherent with `Equals`) — a well-formed-value-preserving callback makes `Transform` return a set
+holding two `Equals` members.  Witness with the hashes the real code computes. -/
+def TransformWF : Prop :=
+  ∀ (X : SetOracle) (σ : Walk.Sched) (cb : Walk.TCb) (v r : Value), Walk.IterPerm X → Walk.SchedOk σ →
+    (∀ log p v w, v.WF (fun _ => true) = true → cb log p v = .ok w → w.WF (fun _ => true) = true) →
+    v.WF (fun _ => true) = true → (Walk.transform X σ cb v).2 = .ok r → r.WF (fun _ => true) = true
+
+theorem wf_transform_counterexample : Walk.IterPerm D06Thm.d06_dupX ∧
+    D06Thm.d06_dupSet.WF (fun _ => true) = true ∧
+    ∃ r, (Walk.transform D06Thm.d06_dupX Walk.Sched.sorted D06Thm.d06_dupCb D06Thm.d06_dupSet).2 = .ok r ∧
+      r.WF (fun _ => true) = false := D06Thm.d06_transform_set_counterexample
+
+/-- `UnmarkDeepWithPaths` and `MarkWithPaths` (cty/marks.go, through `Transform`) -/
+theorem wf_unmarkDeepWithPaths {X : SetOracle} (hX : Walk.IterPerm X) (hlaw : D06Prod.SetLaws X nfc)
+    {σ : Walk.Sched} (hσ : Walk.SchedOk σ) (v r : Value) (pvm : List Walk.PVM) (hv : v.WF nfc = true)
+    (h : Walk.unmarkDeepWithPaths X σ v = .ok (r, pvm)) : r.WF nfc = true :=
+  D06Thm.d06_unmarkDeepWithPaths_wf hX hlaw hσ v r pvm hv h
+theorem wf_markWithPaths {X : SetOracle} (hX : Walk.IterPerm X) (hlaw : D06Prod.SetLaws X nfc)
+    {σ : Walk.Sched} (hσ : Walk.SchedOk σ) (v r : Value) (pvm : List Walk.PVM) (hv : v.WF nfc = true)
+    (h : Walk.markWithPaths X σ v pvm = .ok r) : r.WF nfc = true :=
+  D06Thm.d06_markWithPaths_wf hX hlaw hσ v r pvm hv h
+
+example : D06Thm.d06_wv.WF D06Thm.d06_wnfc = true ∧ D06Thm.d06_wv.ty.d06_setFree = true ∧
+    (Walk.transform (SetOracle.storage) Walk.Sched.sorted D06Thm.d06_wcb D06Thm.d06_wv).2.isOk = true := by decide
+
+/-! ### stdlib: the modelled `Impl`s return well-formed values
+
+`CtyModel.D06StdThm.wf_<f>Impl` (Lemmas/d06Stdlib.lean, one theorem per modelled function: the collection and
+sequence functions except the set algebra and `setproduct`, number / bool / comparison functions, the string functions
+behind `StdNum.Lib`, `format`, `formatdate`, `timeadd`): `impl args … = .ok r → (arguments well-formed; return type
+acceptable; `StringVal`'s normaliser has NFC results; conversions return well-formed values) → r.WF`.  Together with
+`wf_call` (whose hypothesis `himpl` they discharge) this is "any value returned by a … function".  They are
+re-declared here under the same statements as `C06.wf_stdlib_<f>Impl`, proved by the originals. -/
+open Lean Elab Command in
+run_cmd do
+  let env ← getEnv
+  for (n, ci) in env.constants.toList do
+    if (`CtyModel.D06StdThm).isPrefixOf n && !n.isInternal && n.getPrefix == `CtyModel.D06StdThm then
+      if let .thmInfo ti := ci then
+        let s := n.getString!
+        if s.startsWith "wf_" && s.endsWith "Impl" then
+          let nm : Name := Name.str `CtyModel.C06 ("wf_stdlib_" ++ (s.drop 3).toString)
+          let val : Expr := mkConst n (ti.levelParams.map mkLevelParam)
+          let d : TheoremVal := { name := nm, levelParams := ti.levelParams, type := ti.type, value := val }
+          liftCoreM <| addDecl (Declaration.thmDecl d)
+
+/-! ## d06 — "every accessor applicable to that type succeeds": the remaining accessors, marked values included -/
+
+/-- On a well-formed value — MARKED OR NOT, known or unknown — : `Length` on tuples, objects, non-null collections
+and the unknown placeholder; `HasIndex` on non-null lists / maps / tuples with any non-null well-formed key of any
+type; `Index` wherever `HasIndex` did not answer a known `False` (and on maps for every string key: an absent key
+reads as null); `GetAttr` for every declared attribute; `Equals v v` for capsule-free types (sets included);
+`Hash` never panics on a value without marks (it answers `.unmodelled` only for a string with a rune outside the
+modelled `strconv.Quote` table); `Range` exactly on unmarked values — each returns, with a well-formed result.
+The accessors that reject marks by contract (`True`, `AsBigFloat`, `AsString`, `LengthInt`, `ElementIterator`,
+`Range`) stay in `accessors_total` with `isMarked = false`. -/
+theorem accessors_total_marked (v : Value) (hv : v.WF nfc = true) :
+    (((∃ es, v.ty = .tuple es) ∨ (∃ ns ts os, v.ty = .object ns ts os) ∨ (isCollection v.ty = true ∧ v.isNull = false) ∨
+        (v.ty = .dyn ∧ v.isKnown = false)) → ∃ r, Value.length v = .ok r ∧ r.WF nfc = true) ∧
+    (v.isNull = false → ((∃ e, v.ty = .list e) ∨ (∃ e, v.ty = .map e) ∨ ∃ es, v.ty = .tuple es) →
+      ∀ k : Value, k.WF nfc = true → k.isNull = false → ∃ r, hasIndex v k = .ok r ∧ r.WF nfc = true) ∧
+    (v.isNull = false → ∀ k h : Value, hasIndex v k = .ok h → Value.isFalse h.unmark = false →
+      ∃ r, index v k = .ok r ∧ r.WF nfc = true) ∧
+    (v.isNull = false → ∀ e, v.ty = .map e → ∀ k : Value, k.WF nfc = true → k.isNull = false → k.ty = .string →
+      ∃ r, index v k = .ok r ∧ r.WF nfc = true) ∧
+    (∀ ns ts os, v.ty = .object ns ts os → v.isNull = false → ∀ name ∈ ns, ∃ r, v.getAttr name = .ok r) ∧
+    (Ty.hasCapsule v.ty = false → ∃ r, equals v v = .ok r ∧ r.WF nfc = true) ∧
+    (v.containsMarked = false → D06Acc.OkOrUn (Value.hash v)) ∧
+    (v.isMarked = false → ∃ r, v.range = .ok r) ∧
+    (v.isMarked = true → v.range = .panic "Range on marked value") :=
+  D06Acc.accessors_total_ext v hv
+
+/-- `Index` at every position of a (possibly marked, possibly unknown) non-null tuple, and present keys of a map -/
+theorem accessors_total_index_tuple (es : List Ty) (p : Payload) (i : Nat) (hi : i < es.length)
+    (hmax : (i : Int) ≤ maxInt) (hv : Value.WF nfc ⟨.tuple es, p⟩ = true) (hn : p.isNull = false) :
+    ∃ r, index ⟨.tuple es, p⟩ (intVal i) = .ok r ∧ r.WF nfc = true :=
+  D06Acc.index_tuple_total es p i hi hmax hv hn
+theorem accessors_total_index_map (e : Ty) (p : Payload) (ks : List String) (vs : List Payload) (k : String)
+    (hp : p.unmark1 = .smap ks vs) (hv : Value.WF nfc ⟨.map e, p⟩ = true) (hk : k ∈ ks) :
+    ∃ r, index ⟨.map e, p⟩ ⟨.string, .s k⟩ = .ok r ∧ r.WF nfc = true :=
+  D06Acc.index_map_present e p ks vs k hp hv hk
+
+/-- `Equals` on two well-formed values of one capsule-free type (sets at any depth, marks at any depth, unknowns):
+returns a well-formed bool -/
+theorem equals_total (a b : Value) (ha : a.WF nfc = true) (hb : b.WF nfc = true) (hty : a.ty = b.ty)
+    (hc : Ty.hasCapsule a.ty = false) : ∃ r, equals a b = .ok r ∧ r.WF nfc = true :=
+  D06Acc.equals_total a b ha hb hty hc
+
+/-- `RawEquals v v` is `true` (never a panic) for a well-formed capsule-free value -/
+theorem rawEquals_self_total {X : SetOracle} (hX : Walk.IterPerm X) (v : Value) (hv : v.WF nfc = true)
+    (hz : D06Acc.sizesOk v.v = true) (hc : Ty.hasCapsule v.ty = false) : Value.rawEquals X v v = .ok true :=
+  D06Acc.rawEquals_self_total hX v hv hz hc
+
+/-- `Hash` never panics on a well-formed value that contains no mark (marks are its one documented precondition) -/
+theorem hash_total (v : Value) (hv : v.WF nfc = true) (hm : v.containsMarked = false) :
+    D06Acc.OkOrUn (Value.hash v) ∧ ∀ w, Value.hash v ≠ .panic w := D06Acc.hash_total_all v hv hm
+
+/-- where applicability ends: a NULL tuple answers `HasIndex` with `True` (only the type is consulted) but `Index`
+panics on it; `HasIndex` panics on a null key although any other key of a wrong type gets `False`; `Length` panics on
+a null list but not on a null tuple (replayed on the real code; see the report) -/
+theorem accessors_null_receiver_witnesses :
+    (D06Acc.nullTuple.WF (fun _ => true) = true ∧
+      D06Acc.isOkTrue (hasIndex D06Acc.nullTuple (intVal 0)) = true ∧
+      Res.isPanic (index D06Acc.nullTuple (intVal 0)) = true) ∧
+    (Value.WF (fun _ => true) ⟨.number, .null⟩ = true ∧
+      Res.isPanic (hasIndex ⟨.list .string, .seq [.s "a"]⟩ ⟨.number, .null⟩) = true) ∧
+    (Res.isPanic (Value.length ⟨.list .string, .null⟩) = true ∧ (Value.length D06Acc.nullTuple).isOk = true) :=
+  ⟨D06Acc.index_null_tuple_witness, D06Acc.hasIndex_null_key_witness, D06Acc.length_null_witness⟩
+
+example : D06Acc.sample.WF (fun _ => true) = true ∧ D06Acc.sample.isMarked = true ∧
+    (Value.length D06Acc.sample).isOk = true ∧ (equals D06Acc.sample D06Acc.sample).isOk = true ∧
+    (index D06Acc.sampleMap D06Acc.sampleKey).isOk = true ∧ (hasIndex D06Acc.sampleTuple (intVal 5)).isOk = true := by
+  decide
+example : D06Acc.sampleSet.WF (fun _ => true) = true ∧ Ty.hasCapsule D06Acc.sampleSet.ty = false ∧
+    (equals D06Acc.sampleSet D06Acc.sampleSet).isOk = true := by decide
 
 /-! ## non-vacuity: the hypotheses are met by a nested, marked, partly unknown value, and the
 conclusions are not trivially true (neighbouring ill-formed values are rejected by `WF`) -/
